@@ -634,6 +634,7 @@ def build(unit_path, mode="verify"):
     for t in shim_out:
         em.add(t)
     em.add("verus! {")
+    em.add("global size_of usize == 8;   // assumption: 64-bit target (the test suite's target)")
     for t, sh in zip(shim_in, u.shims):
         em.add("// ---- shim prelude: %s (assumed contracts on dependencies) ----" % sh)
         em.add(t)
@@ -659,7 +660,7 @@ def build(unit_path, mode="verify"):
                 derive = [x for x in opts["derive"].split(",") if x]
             elif derive is not None:
                 derive = [x for x in derive if x in ("Clone", "Copy", "PartialEq", "Eq", "Debug")]
-            new = _drop_docs(body)
+            new = _strip_inner_attrs(_drop_docs(body))
             new = _pubify_fields(new) if kind == "struct" else new
             new = rw.apply(name, new)
             if kind == "struct" and name in u.fields:
@@ -677,6 +678,10 @@ def build(unit_path, mode="verify"):
         if d[0] == "fns":
             _, sk, header, names = d
             s = srcs[sk]
+            keep_trait = False
+            if header.startswith("keep "):
+                keep_trait = True
+                header = header[5:].strip()
             free = header == "free"
             self_subst = {}
             impl_head = None
@@ -706,10 +711,14 @@ def build(unit_path, mode="verify"):
                 for (qual, fname, sig, body, orig, rel) in fn_texts:
                     self_emit_fn(em, res, u, rw, qual, sig, body, orig, rel, {}, mode, diffs, indent="")
             else:
-                ih = _emit_impl_header(impl_head)
+                ih = _norm(impl_head) if keep_trait else _emit_impl_header(impl_head)
                 em.add(ih + " {")
+                if keep_trait:
+                    for k, v in self_subst.items():
+                        em.add("    type %s = %s;" % (k.split("::")[1], v))
+                    self_subst = {}
                 for (qual, fname, sig, body, orig, rel) in fn_texts:
-                    self_emit_fn(em, res, u, rw, qual, sig, body, orig, rel, self_subst, mode, diffs, indent="    ")
+                    self_emit_fn(em, res, u, rw, qual, sig, body, orig, rel, self_subst, mode, diffs, indent="    ", vis="" if keep_trait else "pub ")
                 em.add("}")
             continue
     em.add("} // verus!")
@@ -807,6 +816,17 @@ def _drop_docs(t):
     return "\n".join(out)
 
 
+def _strip_inner_attrs(t):
+    """drop #[...] attributes inside an item body (derive-helper attributes such as #[display(..)], #[error(..)])"""
+    while True:
+        m = rl.mask(t)
+        mt = re.search(r"#\[", m)
+        if not mt:
+            return t
+        e = rl.match_close(m, mt.end() - 1)
+        t = t[:mt.start()] + t[e + 1:]
+
+
 def _pubify_fields(t):
     m = rl.mask(t)
     try:
@@ -843,7 +863,7 @@ def _struct_fields(t):
     return out
 
 
-def self_emit_fn(em, res, u, rw, qual, sig, body, orig, rel, self_subst, mode, diffs, indent):
+def self_emit_fn(em, res, u, rw, qual, sig, body, orig, rel, self_subst, mode, diffs, indent, vis="pub "):
     external = u.external.get(qual, False)
     # ---- signature ----
     sig = _drop_docs(sig)
@@ -899,7 +919,6 @@ def self_emit_fn(em, res, u, rw, qual, sig, body, orig, rel, self_subst, mode, d
         res.external_fns.append(qual)
     else:
         res.exec_fns.append(qual)
-    vis = "pub "
     em.add(indent + vis + sig_new.strip())
     cls = u.fn_clauses.get(qual, [])
     for kind in ("requires", "ensures", "returns"):
